@@ -8,3 +8,18 @@ Inductive vname := VStar (b: nat) | VName (b: nat).
 
 Definition eval_names (all_sub: nat -> list nat) (l: list vname) : list nat :=
   flat_map (fun n => match n with VStar b => all_sub b | VName b => [b] end) l.
+
+(* exception classes that matter to the generated dispatcher, and CPython's subclass relation between them (trusted) *)
+Inductive exn := EKeyError | EAttributeError | ELookupError | EValueError | ETypeError | EException.
+
+Definition subclass_of (a b: exn) : bool :=
+  match a, b with
+  | _, EException => true
+  | EKeyError, EKeyError | EKeyError, ELookupError | ELookupError, ELookupError => true
+  | EAttributeError, EAttributeError | EValueError, EValueError | ETypeError, ETypeError => true
+  | _, _ => false
+  end.
+
+(* does `except <handler>` catch an exception whose class has the given bases? *)
+Definition catches (handler bases: list exn) : bool :=
+  existsb (fun b => existsb (fun h => subclass_of b h) handler) bases.
